@@ -1,6 +1,7 @@
 package auth
 
 import (
+	"strings"
 	"encoding/json"
 	"net/http"
 	"net/url"
@@ -127,3 +128,54 @@ func VerifC08Backchannel() {
 
 
 var _ = http.StatusOK
+
+func init() { VerifHarnesses["VerifC08CaseVariant"] = VerifC08CaseVariant }
+
+// VerifC08CaseVariant: credentials are compared exactly - the configured client id or secret
+// in another letter case (in the query, the form body or the header) is as wrong as any other
+// value: no token endpoint acts on it.
+func VerifC08CaseVariant() {
+	zz.ClockMaxAdvance(time.Hour)
+	env := verifNewAuth([]validators.Validator{validators.NewEmailDomainValidator([]string{"*"})}, []string{".sso.test"})
+	routes := []string{"/redeem", "/refresh", "/profile", "/validate"}
+	k := zz.Choose("route", 4)
+	route := routes[k]
+	method := []string{"POST", "POST", "GET", "GET"}[k]
+	req := zz.NewRequest(method, verifAuthHost, route, "")
+	id, secret := verifClientID, verifClientSecret
+	where := zz.Choose("case-variant.of", 2)
+	if where == 0 {
+		id = strings.ToUpper(verifClientID)
+	} else {
+		secret = strings.ToUpper(verifClientSecret)
+	}
+	query, body := url.Values{}, url.Values(nil)
+	query.Set("client_id", id)
+	switch zz.Choose("secret.placement", 3) {
+	case 0:
+		query.Set("client_secret", secret)
+	case 1:
+		req.Header.Set("X-Client-Secret", secret)
+	case 2:
+		if method == "POST" {
+			body = url.Values{}
+			body.Set("client_secret", secret)
+		} else {
+			query.Set("client_secret", secret)
+		}
+	}
+	target := query
+	if body != nil {
+		target = body
+	}
+	target.Set("code", env.Codes.Preload("code", verifAuthSession("code.session")))
+	target.Set("refresh_token", zz.NondetString("refresh_token"))
+	target.Set("email", zz.NondetString("email"))
+	req.Header.Set("X-Access-Token", zz.NondetString("access.token"))
+	zz.SetForm(req, query, body, false)
+	rec := zz.NewRecorder()
+	env.A.ServeMux.ServeHTTP(rec, req)
+	st := rec.Status()
+	zz.Reach("answered")
+	zz.Assert(zz.And(env.Provider.Calls == 0, st == 401, rec.H.Get("Gap-Auth") == ""), "C08.credentials in another letter case are refused: 401, no identity-provider call, nothing revealed")
+}
